@@ -453,3 +453,153 @@ func (h *histRun) checkLate() {
 		}
 	}
 }
+
+// checkAccessCurrency: every successful subscribe/get/new/resource response
+// and every forwarded call must rest on an access grant that is not older
+// than an invalidating trigger (reaccess event on the resource, token event
+// on a connection that already had a token) which a quiescent point absorbed
+// before the client request was sent.
+func (h *histRun) checkAccessCurrency() {
+	reqs := h.g.Bus.Reqs()
+	for _, c := range h.g.clientsSnapshot() {
+		rc := h.rcs[c]
+		if rc == nil || c.CID == "" {
+			continue
+		}
+		type grant struct {
+			ans, done int64
+			get       bool
+			call      string
+		}
+		grants := map[string][]grant{}
+		for _, r := range reqs {
+			if r.Kind != "access" || r.CID != c.CID || !r.Done || r.IsHTTP {
+				continue
+			}
+			g := grant{ans: r.AnsT, done: r.DoneT}
+			if r.Outcome == "reply" {
+				var p struct {
+					Result *struct {
+						Get  bool   `json:"get"`
+						Call string `json:"call"`
+					} `json:"result"`
+				}
+				if json.Unmarshal(r.Reply, &p) == nil && p.Result != nil {
+					g.get, g.call = p.Result.Get, p.Result.Call
+				}
+			}
+			grants[r.Name] = append(grants[r.Name], g)
+		}
+		// invalidating triggers
+		triggers := func(name string) []int64 {
+			var out []int64
+			if wr := h.w.Get(h.worldName(name, c.CID)); wr != nil {
+				for _, ev := range wr.Stream {
+					if ev.Kind == "reaccess" && ev.Matched {
+						out = append(out, ev.T2)
+					}
+				}
+			}
+			for i, ts := range h.tokens[c.Idx] {
+				if i > 0 {
+					out = append(out, ts.T)
+				}
+			}
+			return out
+		}
+		stale := func(name string, useT, sentT int64, wantCall string) (string, bool) {
+			var last *grant
+			gs := grants[name]
+			for i := range gs {
+				if gs[i].done < useT && (last == nil || gs[i].ans > last.ans) {
+					last = &gs[i]
+				}
+			}
+			if last == nil {
+				return "noGrant", true
+			}
+			if wantCall == "" && !last.get {
+				return "usedDenial", true
+			}
+			if wantCall != "" && !refCanCall(last.call, wantCall) {
+				return "callNotGranted", true
+			}
+			for _, tt := range triggers(name) {
+				if tt <= last.ans {
+					continue
+				}
+				for _, q := range h.qpoints {
+					if q > tt && q < sentT {
+						return "staleGrant", true
+					}
+				}
+			}
+			return "", false
+		}
+		sentByID := map[uint64]SentReq{}
+		for _, s := range c.Sent() {
+			sentByID[s.ID] = s
+		}
+		// data deliveries
+		for id, f := range rc.RespFrame {
+			s := sentByID[id]
+			if s.Fence || f.Error != nil {
+				continue
+			}
+			action, rid, _ := methodParts(s.Method)
+			root := ""
+			switch action {
+			case "subscribe", "get":
+				root = rid
+			case "new", "call", "auth":
+				var res struct {
+					RID    *string                    `json:"rid"`
+					Errors map[string]json.RawMessage `json:"errors"`
+				}
+				if json.Unmarshal(f.Result, &res) == nil && res.RID != nil && res.Errors[*res.RID] == nil {
+					if action == "new" || rc.Ver >= Ver120 {
+						root = *res.RID
+					}
+				}
+			}
+			if root == "" {
+				continue
+			}
+			name, _ := ridName(strings.Replace(root, "{cid}", c.CID, -1))
+			h.stat("c04_deliveries_checked", 1)
+			if sig, bad := stale(name, f.T, s.T, ""); bad {
+				h.viol(Viol{Prop: "C04", Conn: c.Idx, T: f.T, RID: root, Sig: sig,
+					Msg: fmt.Sprintf("request %s (sent t=%d) was answered with resource %s at t=%d without a valid access grant for it (%s)", s.Method, s.T, root, f.T, sig)})
+			}
+		}
+		// forwarded calls
+		for _, r := range reqs {
+			if r.Kind != "call" || r.CID != c.CID || r.IsHTTP {
+				continue
+			}
+			var sent *SentReq
+			for _, s := range c.Sent() {
+				s := s
+				action, rid, m := methodParts(s.Method)
+				if action == "new" {
+					m = "new"
+				}
+				if (action != "call" && action != "new") || m != r.Method || s.T >= r.T {
+					continue
+				}
+				n, _ := ridName(strings.Replace(rid, "{cid}", c.CID, -1))
+				if n == r.Name && (sent == nil || s.T > sent.T) {
+					sent = &s
+				}
+			}
+			if sent == nil {
+				continue
+			}
+			h.stat("c05_calls_checked", 1)
+			if sig, bad := stale(r.Name, r.T, sent.T, r.Method); bad {
+				h.viol(Viol{Prop: "C05", Conn: c.Idx, T: r.T, RID: r.Subject, Sig: sig,
+					Msg: fmt.Sprintf("call %s was forwarded at t=%d (client request sent t=%d) without a valid access grant (%s)", r.Subject, r.T, sent.T, sig)})
+			}
+		}
+	}
+}
